@@ -8,7 +8,7 @@ import subprocess
 import sys
 
 VERIF = os.path.dirname(os.path.dirname(os.path.abspath(__file__)))
-WT = "/var/tmp/slicec_selftest"
+WT = os.environ.get("SELFTEST_WT", "/var/tmp/slicec_selftest")
 muts = json.load(open(os.path.join(VERIF, "selftest", "mutations.json")))
 only = set(sys.argv[1:])
 subprocess.run(["git", "-C", "/repo", "worktree", "remove", "--force", WT], capture_output=True)
